@@ -117,6 +117,10 @@ def run_pair(an, bn):
         for kind in ("scale", "v2g", "g2v"):
             r3, v3 = outcome(lambda k=kind: via(k))
             obs["linksame"].append(bool(r3 == "ok" and abs(v3 - ref) <= 1e-12 * max(1.0, abs(ref))))
+        # ... and through a component that relays plain numbers: its input declares units b, its output takes the
+        # metadata of that input (transfer rule FromInput); a consumer in units a gets the published 1 back
+        r3, v3 = outcome(lambda: relay_roundtrip(an, bn))
+        obs["linksame"].append(bool(r3 == "ok" and abs(v3 - 1.0) <= 1e-9))
     # publishing a quantity given in units a on an output that declares units b
     res, _ = outcome(lambda: fm.data.prepare(fm.UNITS.Quantity(np.array([1.0]), ua),
                                              fm.Info(time=day(0), grid=fm.NoGrid(), units=bn)))
@@ -133,6 +137,56 @@ def run_pair(an, bn):
             if smooth_vector(got) != obs["fac"]:
                 obs["linkfac"] = []
     return obs
+
+
+class _Relay(fm.TimeComponent):
+    def __init__(self, units):
+        super().__init__()
+        self._units = units
+        self.time = day(0)
+
+    def _next_time(self):
+        return self.time + (day(1) - day(0))
+
+    def _initialize(self):
+        self.inputs.add(name="In", time=self.time, grid=fm.NoGrid(), units=self._units)
+        self.outputs.add(name="Out")
+        self.create_connector(pull_data=["In"], out_info_rules={"Out": [fm.tools.FromInput("In")]})
+
+    def _connect(self, start_time):
+        push = {}
+        got = self.connector.in_data["In"]
+        if got is not None and not self.connector.data_pushed["Out"]:
+            push["Out"] = float(np.asarray(fm.data.get_magnitude(got)).ravel()[0])      # a plain number
+        self.try_connect(start_time, push_data=push)
+
+    def _validate(self):
+        pass
+
+    def _update(self):
+        pass
+
+    def _finalize(self):
+        pass
+
+
+def relay_roundtrip(an, bn):
+    import shutil
+    import tempfile
+    src = fm.components.CallbackGenerator(
+        {"Out": (lambda t: 1.0, fm.Info(time=None, grid=fm.NoGrid(), units=an))}, start=day(0), step=day(1) - day(0))
+    relay = _Relay(bn)
+    sink = fm.components.DebugConsumer({"In": fm.Info(time=None, grid=fm.NoGrid(), units=an)}, start=day(0),
+                                       step=day(1) - day(0))
+    memdir = tempfile.mkdtemp(prefix="fv-mem-")
+    try:
+        comp = fm.Composition([src, relay, sink], print_log=False, slot_memory_location=memdir)
+        src.outputs["Out"] >> relay.inputs["In"]
+        relay.outputs["Out"] >> sink.inputs["In"]
+        comp.connect(day(0))
+        return float(np.asarray(fm.data.get_magnitude(sink.data["In"])).ravel()[0])
+    finally:
+        shutil.rmtree(memdir, ignore_errors=True)
 
 
 def run_case(case):
